@@ -161,7 +161,7 @@ func C03(c *Ctx) {
 				continue
 			}
 			seen[body] = true
-			c.vetoHandlerExits(vm, body, c.EventName(ev))
+			c.vetoHandlerExits("C03.veto-exit", vm, body, c.EventName(ev))
 		}
 	}
 	// (3) middlewares: the request-time functions of the package that hand the
@@ -180,7 +180,7 @@ func C03(c *Ctx) {
 	c.startConfirmationShape()
 }
 
-func (c *Ctx) vetoHandlerExits(vm vetoModule, h *ssa.Function, ev string) {
+func (c *Ctx) vetoHandlerExits(rule string, vm vetoModule, h *ssa.Function, ev string) {
 	r := c.R
 	name := FuncName(h)
 	n := 0
@@ -194,11 +194,11 @@ func (c *Ctx) vetoHandlerExits(vm vetoModule, h *ssa.Function, ev string) {
 			hv, isC := ConstBool(ret.Results[0])
 			if isC && hv {
 				n++
-				r.Ok("C03.veto-exit", name, "return true", pos, "vetoes")
+				r.Ok(rule, name, "return true", pos, "vetoes")
 				continue
 			}
 			if !isC {
-				r.Unknown("C03.veto-exit", name, "return <non-constant>", pos, "handled result is not a constant")
+				r.Unknown(rule, name, "return <non-constant>", pos, "handled result is not a constant")
 				continue
 			}
 			n++
@@ -210,7 +210,7 @@ func (c *Ctx) vetoHandlerExits(vm vetoModule, h *ssa.Function, ev string) {
 				}
 			}
 			if allow == nil {
-				r.Bad("C03.veto-exit", name, "return false", pos, vm.name+" veto handler can let the login proceed (return false, nil) on a path that has not established that the account is "+map[string]string{"lock": "not locked", "confirm": "confirmed"}[vm.name], factList(c, ret)...)
+				r.Bad(rule, name, "return false", pos, vm.name+" veto handler can let the login proceed (return false, nil) on a path that has not established that the account is "+map[string]string{"lock": "not locked", "confirm": "confirmed"}[vm.name], factList(c, ret)...)
 				continue
 			}
 			// the user inspected is the current (context) user
@@ -224,11 +224,11 @@ func (c *Ctx) vetoHandlerExits(vm vetoModule, h *ssa.Function, ev string) {
 			fromCtx := HasOrigin(c.Origins(subj), func(o Origin) bool {
 				return o.Kind == "call" && (strings.HasPrefix(o.Name, fnCurrentUser+"#") || strings.HasPrefix(o.Name, fnCurrentUserP+"#") || strings.HasPrefix(o.Name, fnLoadCurrentUser))
 			})
-			r.Check(fromCtx, "C03.veto-exit", name, "return false", pos, "declines only when the context user is "+map[string]string{"lock": "not locked", "confirm": "confirmed"}[vm.name], "the account state tested is not that of the context user (origins: "+names(c.Origins(subj))+")")
+			r.Check(fromCtx, rule, name, "return false", pos, "declines only when the context user is "+map[string]string{"lock": "not locked", "confirm": "confirmed"}[vm.name], "the account state tested is not that of the context user (origins: "+names(c.Origins(subj))+")")
 		}
 	}
 	if n == 0 {
-		r.Unknown("C03.veto-exit", name, "returns", "-", "no non-error return found in veto handler for "+ev)
+		r.Unknown(rule, name, "returns", "-", "no non-error return found in veto handler for "+ev)
 	}
 }
 
@@ -367,5 +367,33 @@ func (c *Ctx) startConfirmationShape() {
 			}
 		}
 		r.Check(ok, "C03.restart", name, m, pos, "set before the save ("+m+")", "a (re)started confirmation does not "+map[string]string{"PutConfirmed": "mark the account unconfirmed (PutConfirmed(false))", "PutConfirmSelector": "store a fresh selector", "PutConfirmVerifier": "store a fresh verifier"}[m]+" before saving: the account stays loginable while confirmation is outstanding")
+	}
+}
+
+// lockAnswersLocked: whichever of lock's handlers answers an attempt on a
+// locked account — BeforeAuth for the right password, AfterAuthFail for a
+// wrong one — lets the request go on only where the account was found not
+// locked. (C16: both outcomes get the locked answer; C03 reads the same
+// structure for the veto alone.)
+func (c *Ctx) lockAnswersLocked(rule string) {
+	var vm vetoModule
+	for _, m := range vetoModules {
+		if m.name == "lock" {
+			vm = m
+		}
+	}
+	seen := map[*ssa.Function]bool{}
+	for _, hn := range []string{"(*ab/lock.Lock).BeforeAuth", "(*ab/lock.Lock).AfterAuthFail"} {
+		h := c.P.FuncOpt(hn)
+		if h == nil {
+			c.R.Unknown(rule, hn, "handler", "-", "not found")
+			continue
+		}
+		body := c.tailTarget(h)
+		if seen[body] {
+			continue
+		}
+		seen[body] = true
+		c.vetoHandlerExits(rule, vm, body, "EventAuth/EventAuthFail")
 	}
 }
